@@ -134,6 +134,16 @@ CLAIMED = {
              "real skip option; scanner config objects are plain namespaces; check-session recovery and --reset outside; skip-map parsing is C20's subject.",
         ref="§4 C10", technique="symbolic execution of the real scanners over symbolic ECU answers (CrossHair + z3)",
     ),
+    "C11": dict(
+        text="Bounded symbolic execution (CrossHair + z3) of (i) the real ECU._request with the outcome of the underlying exchange, logging switches, tags, client "
+             "state and database failure symbolic: exactly one row per request iff implicit logging, request bytes exact, reply object or NULL, exception, send <= receive, "
+             "the state BEFORE the request, emphasised iff ANALYZE; (ii) the real DBHandler.insert_scan_result for every typed response id on symbolic reply bytes: "
+             "the row is built (JSON-encodable by type) and carries exactly the request/reply bytes; (iii) the real writer task and disconnect() on a virtual-time loop "
+             "with symbolic producer/disconnect instants, execute latency and a transient OperationalError: every row handed over before disconnect() is written exactly once before close.",
+        note="Trusted: CrossHair, z3, engine/vloop.py. sqlite/aiosqlite, schema constraints, hexlify and json text rendering are behind stubs (outside the claim). Rows handed "
+             "over while disconnect() is already running are unconstrained. One fixed defect.",
+        ref="§4 C11", technique="symbolic execution of logging path, row construction and writer task (CrossHair + z3, virtual-time loop)", engine="vloop",
+    ),
     "C02": dict(
         text="Bounded symbolic execution (CrossHair + z3) of the real UDSResponse.parse_dynamic / from_pdu / pdu code: for every first byte "
              "0x00-0xFF and every total length in the stated bound, with all remaining bytes symbolic, every path is explored and the "
